@@ -217,7 +217,11 @@ def explore(mod, tier, seed, nproc):
                 if len(agg.samples) < 4:
                     agg.samples.append(s)
             agg.skipped += res['skipped']
-            agg.extra.update(res['extra'])
+            for k_, v_ in res['extra'].items():
+                if k_.startswith('max_'):
+                    agg.extra[k_] = max(agg.extra[k_], v_)
+                else:
+                    agg.extra[k_] += v_
             agg.notes.extend(res['notes'])
     # ---- confirm candidates in isolation, classify
     known = load_known(mod.ID)
